@@ -272,7 +272,7 @@ def tlc(module, cfg=None, workers=1, env=None, heap="2g", timeout=1800, extra=No
     """Run TLC on spec/<module>.tla with <cfg> (default <module>.cfg) in the scratch copy."""
     d = cwd or spec_copy()
     meta = tempfile.mkdtemp(prefix="meta-", dir=scratch())
-    java = ["java", "-XX:+UseParallelGC", "-Xmx" + heap]
+    java = ["java", "-XX:+UseParallelGC", "-Xmx" + heap, "-Djava.io.tmpdir=" + meta]
     if workers == 1:
         java.append("-XX:ParallelGCThreads=2")
     if stack:
